@@ -11,6 +11,8 @@ CHECKS = {
          "SHA-1 collisions outside the alphabet; handlers atomic (C20); corruption modelled as one flipped byte", MC, "looplab", "3/C01"),
  "C02": ("exploration", "every file-length vector / padding placement / piece length / block size / read range within the stated unit-scale bounds, plus 16 KiB-scaled images and created directory trees, executed on the real geometry code and compared with a flat byte-array model; exhaustive within the bounds",
          "value-independence of geometry (one byte pattern); sizes beyond the bounds represented by their unit-scale coincidence class", ENUM, "enum", "3/C02"),
+ "C03": ("model_checking", "seeding / partially seeding torrent on the real event loop: every history of <= depth leecher operations over 14 request shapes, interested, cancel, unchoke tick, for read-cache block sizes {16K,24K,128K}, cache capacities, fast / non-fast leecher; every piece frame decoded by an independent codec and compared with the ground truth, allowed-fast-only service while choked",
+         "request field values from the shape lattice (the full 32-bit product is the component-level part); one leecher", MC, "looplab", "3/C03"),
  "C04": ("model_checking", "explicit enumeration, on the real torrent event loop with an explorer-owned select, of every command/mutation sequence up to the stated depth from three initial states, plus every execution with one race deviation; status truthfulness, command effect, crash/hang and convergence oracles in every state",
          "one torrent, one honest seed, one tracker; handlers atomic (C20); silent corruption while stopped is unknowable to the client until the next verification and is excluded from the truthfulness oracle", MC, "looplab", "3/C04"),
  "C07": ("exploration", "every name / path-component string up to the stated length over a hostile byte alphabet plus a tricky list, in single- and multi-file torrents, both data-dir modes and utf-8 overrides: pure confinement oracle on every accepted Info, real allocator over the real file storage with a sentinel tree diff, tar extraction of hostile archives, and RemoveTorrent",
@@ -19,10 +21,16 @@ CHECKS = {
          "field values and cut positions outside the stated lattices are not enumerated; transport never errors", ENUM, "enum", "3/C11"),
  "C12": ("exploration", "two real MSE endpoints over a chunk-controlled in-memory duplex with scripted crypto/rand: padA/padB over all 0..511, padC/padD and payload sizes on boundary sets, every offer/selection combination incl. illegal ones from an independent reference endpoint, every single split position of every flight; policy matrix of btconn Accept/Dial incl. the plaintext redial",
          "keys, DH secrets and pad bytes from small fixed sets; >2 independent splits only as fixed chunk sizes; Dial over loopback TCP with uncontrolled fragmentation", ENUM, "enum", "3/C12"),
+ "C13": ("model_checking", "magnet torrent fed by a lying and an honest peer: every history of <= depth metadata operations (right/garbage/wrong-size/unrequested/duplicate/out-of-range blocks, total_size lies, reject, request, second handshake) for metadata of 1..3 blocks, announced sizes {true,+1,-1,0,max,max+1}, 1-2 parallel downloads; adopted metadata must hash to the link, oversize never fetched, honest peer eventually adopted",
+         "two peers; SHA-1 collisions outside the alphabet", MC, "looplab", "3/C13"),
+ "C14": ("model_checking", "every sequence of <= 3 (thorough: dedup BFS to depth 5) registry operations (adds incl. failing ones, removes, start/stop, AddTracker, CompactDatabase + load, close + reopen) on real sessions with a 3-port range, conservation laws after every operation; resume Spec field lattice through bbolt and JSON",
+         "payloads fixed (two torrents, one magnet); concurrent callers are the threadlab part", "explicit-state exploration of operation histories on the real Session with state-key dedup", "enum", "3/C14"),
  "C16": ("model_checking", "tier index machine explored by BFS to a fixpoint (all answer vectors, up to 2-4 concurrent calls interleaved at every point); every announce answer sequence up to the bound on the real PeriodicalAnnouncer under virtual time; the real UDP transport with 2-3 concurrent requests under every cancel/reply/expiry order; HTTP and UDP reply byte lattices",
          "announcer back-off jitter bounded not pinned; at most 3 requests per UDP destination; no DNS", "explicit-state BFS to fixpoint + exhaustive operation-sequence enumeration on the real actors under virtual time (synctest)", "actorlab", "3/C16"),
  "C18": ("model_checking", "interval tree vs linear scan for every list of <=4(5) intervals over two endpoint lattices and every query point; Blocklist for every list of <=3 lines of a 49-line universe and every Reload sequence; AddrList for every push/pop/reset sequence up to depth 6(7) against a reference bounded priority set; resolver on blocked literals",
          "peerpriority.Calculate taken as given; eviction rule modelled as implemented; session-level dial admission is checked separately (looplab)", ENUM, "enum", "3/C18"),
+ "C08": ("model_checking", "torrent in each state {metadata unknown, allocating, verifying, downloading, seeding} x every sequence of <= depth attacker messages over 42 hostile but well-framed messages, under both extreme resolutions of racing selects; crash/hang oracles in every state and completion of the honest peer's exchange afterwards",
+         "byte-level framing attacks are the reader-level part; one attacker and one honest peer", MC, "looplab", "3/C08"),
  "C10": ("model_checking", "every layout/mode configuration run under the eager fair schedule and every single deviation of it on the real event loop; completion with byte-identical files is required in each",
          "bounded liveness under the default continuation; other parties' misbehaviour limited to the stated deviation alphabet", MC, "looplab", "3/C10"),
 }
